@@ -99,6 +99,10 @@ def run(rep, idx, tier):
               f"per-iteration update is {ir.show(upd)}; expected {ir.show(want_hi)} for every field (reserved and write-only fields "
               "occupy bits too)")
     # ---- C11.3 wiring -------------------------------------------------------------------------------------
+    # a port's data signals have the field's shape: with a field width of 0 they (and the field's slice of the element) have no bits
+    if not hasattr(c.eng, "size_hints"):
+        c.eng.size_hints = []
+    c.eng.size_hints.append((c.norm(W), [c.parse("field.port.r_data", env), c.parse("field.port.w_data", env)], []))
     rd = c.parse("field.port.access.readable()", env)
     wr = c.parse("field.port.access.writable()", env)
     r_slice = ('sub', c.parse("self.element.r_data"), S)
@@ -366,7 +370,14 @@ def constructor(rep, idx):
                 it = tgt
                 continue
         break
-    ys = [ir.norm(ir.from_ast(n.value, {})) for n in ast.walk(it.node) if isinstance(n, (ast.Yield, ast.YieldFrom)) and n.value is not None]
+    # locals bound once to an attribute of the instance (`field = self.field`) stand for it
+    alias = {}
+    for st in ast.walk(it.node):
+        if isinstance(st, ast.Assign) and len(st.targets) == 1 and isinstance(st.targets[0], ast.Name):
+            alias.setdefault(st.targets[0].id, []).append(st.value)
+    env_ = {k: ir.from_ast(v[0], {}) for k, v in alias.items()
+            if len(v) == 1 and isinstance(v[0], ast.Attribute) and isinstance(v[0].value, ast.Name) and v[0].value.id == "self"}
+    ys = [ir.norm(ir.from_ast(n.value, env_)) for n in ast.walk(it.node) if isinstance(n, (ast.Yield, ast.YieldFrom)) and n.value is not None]
     want = {ir.norm(ir.parse("((), self.field)")), ir.norm(ir.parse("self.field.flatten()"))}
     want2 = {ir.norm(ir.parse("((), self._field)")), ir.norm(ir.parse("self._field.flatten()"))}
     rep.check(set(ys) in (want, want2), "C11.4", it.site, "Register.__iter__ yields ((), field) or the flattened collection",
